@@ -174,10 +174,15 @@ type HSOptions struct {
 	MaxPad     int // non-IO instructions per slot
 	Rsizes     []int
 	ExtraALU   []string // additional two-register opcodes mixed into the padding (e.g. addp, multp)
+	RichALU    bool // also draw the co-implemented logic/shift/carry/pipelined opcodes valid for the register size
 	Replicate  bool // sometimes make a processor an exact replica of an earlier one (same domain)
 	EqualLoops bool // pad every loop to the same length (consumers of a fan-out advance at equal speed)
 	NoFanout   bool
 }
+
+// RichOps lists further opcodes that both back-ends implement (C01's co-implemented table).
+var richAll = []string{"cir", "mulc", "addp", "multp"}
+var richSmall = []string{"and", "or", "xor", "nand", "nor", "xnor", "not", "adc", "sbc", "rsc", "cil", "incc", "cilc", "cirn"}
 
 func genALU(t *rapid.T, nreg int, rsize int, extra []string) string {
 	ops := ALUOps
@@ -187,9 +192,9 @@ func genALU(t *rapid.T, nreg int, rsize int, extra []string) string {
 	op := rapid.SampledFrom(ops).Draw(t, "alu")
 	r := func(l string) string { return fmt.Sprintf("r%d", rapid.IntRange(0, nreg-1).Draw(t, l)) }
 	switch op {
-	case "inc", "dec", "clr":
+	case "inc", "dec", "clr", "cir", "cil", "cirn", "incc", "cilc":
 		return op + " " + r("ra")
-	case "add", "cpy", "mult", "addp", "multp", "divp":
+	case "add", "cpy", "mult", "addp", "multp", "divp", "mulc", "and", "or", "xor", "nand", "nor", "xnor", "not", "adc", "sbc", "rsc":
 		return op + " " + r("ra") + " " + r("rb")
 	case "rset":
 		max := 255
@@ -217,6 +222,12 @@ func HandshakeMachine(t *rapid.T, o HSOptions) BMSpec {
 	}
 	var s BMSpec
 	s.Rsize = rapid.SampledFrom(o.Rsizes).Draw(t, "rsize")
+	if o.RichALU {
+		o.ExtraALU = append(append([]string(nil), o.ExtraALU...), richAll...)
+		if s.Rsize <= 16 {
+			o.ExtraALU = append(o.ExtraALU, richSmall...)
+		}
+	}
 	np := rapid.IntRange(1, o.MaxProcs).Draw(t, "nprocs")
 	type src struct {
 		name  string
